@@ -152,7 +152,7 @@ theorem sendO_lost {o : KcpO} (h : InvMss o.k) (b : Bytes) : (sendO o b).o.gh.lo
   simp only []
   split; · rfl
   split; · rfl
-  split; · exact h1
+  split; · rfl
   split; · exact h1
   split
   · rename_i hgt
